@@ -28,6 +28,23 @@ class Obligation:
         self.state = None
 
 
+_KNOWN_RE = None
+
+
+def _matches_known_finding(name):
+    """obligation name (without /pathN) matched by a regex of /verif/known_findings.json"""
+    global _KNOWN_RE
+    if _KNOWN_RE is None:
+        import json, os, re
+        try:
+            k = json.load(open(os.path.join(os.path.dirname(os.path.dirname(os.path.abspath(__file__))),
+                                            'known_findings.json')))
+            _KNOWN_RE = [re.compile(f['obligation']) for f in k.get('findings', [])]
+        except (OSError, ValueError, KeyError):
+            _KNOWN_RE = []
+    return any(r.search(name) for r in _KNOWN_RE)
+
+
 class State:
     def __init__(self):
         self.env = {}
@@ -295,6 +312,11 @@ class Engine:
         ob = Obligation(nm, st.pc, goal, kind, line, note)
         ob.state = st.fork()
         self.obligations.append(ob)
+        # assert-then-assume, except where that would make the rest of the path vacuous: a goal that is literally
+        # False, and an obligation that a recorded known finding refutes on the unchanged tree (the code after it
+        # must still be checked without the refuted fact)
+        if z3.is_false(goal) or _matches_known_finding(nm):
+            return
         st.assume(goal)
 
     def feasible(self, st, cond):
@@ -1686,6 +1708,15 @@ class Engine:
         self.obligations = sub.obligations
         return res
 
+    def ev_NamedExpr(self, e, st):
+        """(x := value): evaluate, bind the local name, yield the value"""
+        out = []
+        for s, v in self.ev(e.value, st):
+            if not isinstance(v, Raised):
+                s.env[e.target.id] = v
+            out.append((s, v))
+        return out
+
     def ev_Lambda(self, e, st):
         return [(st, VTag('lambda', payload=e))]
 
@@ -2743,8 +2774,8 @@ class Engine:
             return VOpt(z3.Bool(fresh_name(label + '?none')), self.fresh_like(s, v.val, label))
         if isinstance(v, VTuple):
             return VTuple([self.fresh_like(s, i, label) for i in v.items])
-        if v is VNone:
-            return VNone
+        # (a local that is None at the loop head but assigned in the loop must NOT stay None: its type has to be
+        # declared; returning VNone here once verified loop bodies as if the variable never changed)
         t = self.spec.local_types.get(label)
         if t is not None:
             return self.fresh(s, t, label)
